@@ -124,6 +124,8 @@ struct Inner {
     change_points: Vec<u64>,
     rules: Vec<(Stall, u32, bool)>,
     stalled: Vec<Option<StallState>>,
+    /// workers parked in `block_on` until their condition holds
+    waiting: Vec<Option<(fn(usize, usize) -> bool, usize, usize)>>,
     hash: u64,
     cut: bool,
     drain: bool,
@@ -330,7 +332,12 @@ impl Inner {
         }
     }
     fn eligible(&self, t: usize) -> bool {
-        self.st[t] == TS::Running && self.stalled[t].is_none()
+        self.st[t] == TS::Running
+            && self.stalled[t].is_none()
+            && match self.waiting[t] {
+                None => true,
+                Some((f, a, b)) => f(a, b),
+            }
     }
     /// Chooses who runs next. `me_running`: the caller is still runnable.
     fn choose(&mut self, me: u32, me_running: bool) -> u32 {
@@ -357,6 +364,13 @@ impl Inner {
             if let Some((t, _)) = best {
                 self.release(t, "no-other-runnable");
                 return t as u32;
+            }
+            // last resort: wake a parked worker (its block_on returns false)
+            for t in 0..n {
+                if self.st[t] == TS::Running && (t as u32 != me || me_running) && self.waiting[t].is_some() {
+                    self.waiting[t] = None;
+                    return t as u32;
+                }
             }
             return NONE;
         }
@@ -471,6 +485,7 @@ pub fn run_exec(cfg: ExecCfg, bodies: Vec<Box<dyn FnOnce() + Send + 'static>>) -
             change_points,
             rules: cfg.stalls.iter().cloned().map(|s| (s, 0, false)).collect(),
             stalled: vec![None; n],
+            waiting: vec![None; n],
             hash: 0xC1C0,
             cut: false,
             drain: false,
@@ -684,4 +699,81 @@ pub fn block_until(cond: impl Fn() -> bool) -> bool {
 /// True if worker `t` is currently held at a stall rule.
 pub fn is_stalled(t: u32) -> bool {
     STALLED_MASK.load(SeqCst) & (1 << t) != 0
+}
+
+/// Scripted scenarios: parks the calling worker until `f(a, b)` holds (evaluated by the scheduler,
+/// so a parked worker costs no context switches). `f` may only read atomics.
+/// Returns false if every other worker finished or is parked/stalled while it is still false.
+pub fn block_on(f: fn(usize, usize) -> bool, a: usize, b: usize) -> bool {
+    if MODE.load(Relaxed) != 1 {
+        let t0 = std::time::Instant::now();
+        while !f(a, b) {
+            std::thread::yield_now();
+            if t0.elapsed() > Duration::from_secs(20) {
+                return false;
+            }
+        }
+        return true;
+    }
+    let me = WID.with(|w| w.get());
+    if me == NONE || f(a, b) {
+        return f(a, b);
+    }
+    let mut g = lock();
+    let inn = match g.as_mut() {
+        Some(i) => i,
+        None => return f(a, b),
+    };
+    inn.waiting[me as usize] = Some((f, a, b));
+    loop {
+        inn_step_release(&mut g);
+        let inn = g.as_mut().unwrap();
+        if inn.eligible(me as usize) {
+            inn.waiting[me as usize] = None;
+            return true;
+        }
+        let others: Vec<u32> = (0..inn.n as u32).filter(|&t| t != me && inn.eligible(t as usize)).collect();
+        if others.is_empty() {
+            // release the oldest stall of another worker, if any; otherwise give up
+            let mut best: Option<(usize, u64)> = None;
+            for t in 0..inn.n {
+                if t as u32 != me && inn.st[t] == TS::Running {
+                    if let Some(s) = &inn.stalled[t] {
+                        if best.map_or(true, |(_, st)| s.since_step < st) {
+                            best = Some((t, s.since_step));
+                        }
+                    }
+                }
+            }
+            match best {
+                Some((t, _)) => {
+                    inn.release(t, "no-other-runnable");
+                    continue;
+                }
+                None => {
+                    inn.waiting[me as usize] = None;
+                    return f(a, b);
+                }
+            }
+        }
+        let next = others[inn.rng.below(others.len() as u64) as usize];
+        inn.switches += 1;
+        inn.hash = mix(inn.hash, ((me as u64) << 32) | (0xB10C << 8) | next as u64);
+        inn.cur = next;
+        CVS[next as usize].notify_one();
+        while g.as_ref().map_or(false, |i| i.cur != me) {
+            g = match CVS[me as usize].wait(g) {
+                Ok(g) => g,
+                Err(p) => p.into_inner(),
+            };
+        }
+    }
+}
+
+fn inn_step_release(g: &mut MutexGuard<'static, Option<Inner>>) {
+    if let Some(inn) = g.as_mut() {
+        inn.step += 1;
+        let ep = EPOCH_ADV.load(Relaxed);
+        inn.release_due(ep);
+    }
 }
